@@ -5,6 +5,7 @@ import (
 	"runtime"
 	"runtime/debug"
 
+	"voicheck/elin"
 	"voicheck/erange"
 )
 
@@ -43,6 +44,7 @@ func init() {
 			"Cells of small arrays/structs are tracked individually with strong updates; bits.Mul64 / bits.Add64 pairs are tracked as one 128-bit quantity. " +
 			"An obligation is one arithmetic instruction in one inlining context of one primitive: +,*,<< below 2^w, subtractions non-negative, discarded carries / high words zero, W>>k fits a word, narrowing conversions exact, outputs exact words within the documented reduced bound, closure of pre/post-conditions; a word that may wrap is tolerated only if every consumer is exact modulo 2^w (the modelled idioms, counted in the evidence). " +
 			"Stage B interprets the element-level code in join mode (worklist, widening) from every exported function of the packages that import internal/field; each primitive call raises the pre-condition obligation and is replaced by a memoised stage A analysis on the actual argument bounds; non-local elements are abstracted by one bound per (struct type, field), iterated to a fixpoint. " +
+			"Engine E-LIN (package voicheck/elin): the byte<->limb conversions SetBytes, SetBytesWide, ToBytes and the weak reduction are interpreted in the domain of affine forms with rational coefficients over the input bits (no path conditions, no solver): SetBytes gives Σ limb_i·2^off_i = Σ_{k<255} 2^k·bit_k exactly (bit 255 ignored), SetBytesWide is coefficient-wise congruent to Σ_{k<512} 2^k·bit_k mod p before and after the reduction, the weak reduction preserves the value mod p, ToBytes packs a bijection of 255 bits, its carry chain and its quotient Q = [h >= p] are affine facts. " +
 			"Nothing of the repository is executed."
 		run.Assumptions = append(run.Assumptions,
 			"go/types and go/ssa (golang.org/x/tools v0.29.0) represent the program faithfully; math/bits.Mul64/Add64 and encoding/binary.LittleEndian behave as documented",
@@ -55,7 +57,7 @@ func init() {
 		run.NotDecided = append(run.NotDecided,
 			"functional exactness of multiplication, squaring, inversion and square roots (which partial product goes to which limb, that carries are added to the right limb with the right weight): only ranges are decided",
 			"the amd64 assembly (feMul, fePow2k) and the AVX2 vector code: no range model of assembly; in the amd64 configuration Mul, Square, Square2 and Pow2k are reported as not decided and stage B is not run",
-			"that reduce/ToBytes canonicalise correctly (h < 2p after one weak reduction), that the bias constants of Sub/Neg are a multiple of p (E-CONST), limb uniformity of the limb-wise operations (E-SIB)",
+			"the last step of ToBytes's canonicalisation argument (discarded carry = quotient) is a stated two-case argument from decided facts, not mechanised; that the bias constants of Sub/Neg are a multiple of p (E-CONST), limb uniformity of the limb-wise operations (E-SIB)",
 			"curve/scalar: the 64-bit back end is analysed by erange.CheckScalar64 under property C05; the 32-bit scalar back end wraps on purpose (Karatsuba) and is out of reach of intervals",
 		)
 
@@ -80,6 +82,11 @@ func init() {
 					continue
 				}
 				erange.CheckFieldStageA(run, p, "RANGE-A")
+				// byte<->limb conversions and the weak reduction as affine identities (engine E-LIN)
+				lr := elin.CheckField(run, p, "LIN")
+				if id == stageA[0] {
+					run.Sample(map[string]any{"config": id, "LIN functions": lr.Functions, "LIN obligations": lr.Obligations})
+				}
 				if inB[id] {
 					erange.CheckFieldStageB(run, p, "RANGE-B")
 				}
